@@ -137,26 +137,37 @@ def judge_deadline(ctx, name, cases):
             raise MachineryError("deadline observation failed:\n" + err)
         obs.append({k: v for k, v in o.items() if not k.startswith("_")})
         owner.append(case)
+    # TLC judges the traces in batches of 250 (a thorough run has thousands of traces of hundreds of events each: one
+    # JSON file for all of them does not fit TLC's heap), several batches side by side
+    from concurrent.futures import ThreadPoolExecutor
     tmp = tempfile.mkdtemp(prefix="qa_dl_")
+    acc, rej = set(), {}
     try:
-        path = os.path.join(tmp, "t.ndjson")
-        with open(path, "w") as fd:
-            for o in obs:
-                fd.write(json.dumps(o) + "\n")
-        r = tlc.run_tlc("DeadlineTrace", env={"QA_OBS_FILE": path}, workers=4, timeout=1500, heap="4g")
+        jobs = []
+        for c0 in range(0, len(obs), 250):
+            path = os.path.join(tmp, "t_%d.ndjson" % c0)
+            with open(path, "w") as fd:
+                for o in obs[c0:c0 + 250]:
+                    fd.write(json.dumps(o) + "\n")
+            jobs.append((c0, path))
+
+        def one(job):
+            return job[0], tlc.run_tlc("DeadlineTrace", env={"QA_OBS_FILE": job[1]}, workers=2, timeout=3000, heap="4g")
+        with ThreadPoolExecutor(max_workers=6) as ex:
+            results = list(ex.map(one, jobs))
     finally:
         shutil.rmtree(tmp, ignore_errors=True)
-    if r.timed_out or not r.ok:
-        raise MachineryError("DeadlineTrace failed: %s\n%s" % (r.summary(), "\n".join(r.errors[:3]) or r.stdout[-1500:]))
-    acc, rej = set(), {}
-    for ln in r.prints:
-        t = tlc.parse_tuple(ln)
-        if t and t[0] == "ACCEPT":
-            acc.add(t[1])
-        if t and t[0] == "REJECT":
-            rej.setdefault(t[1], []).append(t[2])
-    ctx.states += r.distinct
-    ctx.transitions += r.generated
+    for c0, r in results:
+        if r.timed_out or not r.ok:
+            raise MachineryError("DeadlineTrace failed: %s\n%s" % (r.summary(), "\n".join(r.errors[:3]) or r.stdout[-1500:]))
+        for ln in r.prints:
+            t = tlc.parse_tuple(ln)
+            if t and t[0] == "ACCEPT":
+                acc.add(c0 + t[1])
+            if t and t[0] == "REJECT":
+                rej.setdefault(c0 + t[1], []).append(t[2])
+        ctx.states += r.distinct
+        ctx.transitions += r.generated
     ctx.traces += len(obs)
     ctx.evaluations += len(obs)
     nrej = 0
